@@ -359,3 +359,58 @@ func sortedKeys[V any](m map[string]V) []string {
 	sort.Strings(ks)
 	return ks
 }
+
+// RunCasesPrefix is RunCases for answers of the form "<n> d1 d2 …": the model's list may be longer than the
+// implementation-side list; they must agree on the implementation-side length.
+func RunCasesPrefix(suite string, cases []*Case, rep *Report) {
+	var lines []string
+	for _, c := range cases {
+		lines = append(lines, "case "+c.ID)
+		lines = append(lines, c.Ops...)
+	}
+	model, err := runDriver(suite, lines)
+	if err != nil {
+		rep.Divergences = append(rep.Divergences, Divergence{Props: []string{"*"}, Case: "driver", Op: "run", Model: err.Error()})
+		return
+	}
+	pos := 0
+	for _, c := range cases {
+		pos++
+		m := model[pos : pos+len(c.Ops)]
+		pos += len(c.Ops)
+		rep.Cases++
+		rep.Ops += len(c.Ops)
+		for _, t := range c.Tags {
+			rep.Dist[t]++
+		}
+		rep.NonTrivial++
+		if len(rep.Samples) < 4 {
+			rep.Samples = append(rep.Samples, map[string]any{"case": c.ID, "segment_files": len(c.Ops), "impl": clip(c.Impl, 4)})
+		}
+		if c.Monitor != nil {
+			for _, v := range c.Monitor(c.Ops, c.Impl) {
+				v.Case = c.ID
+				rep.Violations = append(rep.Violations, v)
+			}
+		}
+		for i := range c.Ops {
+			want := strings.Fields(c.Impl[i])
+			got := strings.Fields(m[i])
+			ok := len(got) >= len(want) && len(want) >= 1
+			if ok {
+				for j := 1; j < len(want); j++ {
+					if got[j] != want[j] {
+						ok = false
+					}
+				}
+				if len(got) > 0 && len(want) > 0 && atoiU(got[0]) < atoiU(want[0]) {
+					ok = false
+				}
+			}
+			if !ok {
+				rep.Divergences = append(rep.Divergences, Divergence{Props: c.Props, Case: c.ID, At: i, Op: clipS(c.Ops[i]), Impl: clipS(c.Impl[i]), Model: clipS(m[i])})
+				rep.Violations = append(rep.Violations, Violation{Property: "C09", Case: c.ID, What: "a segment file of a golden directory does not decode, with the README decoder, to the manifest's entries", Detail: fmt.Sprintf("file %d: want %s got %s", i, clipS(c.Impl[i]), clipS(m[i]))})
+			}
+		}
+	}
+}
